@@ -52,12 +52,12 @@ def _flags(draw):
 
 @st.composite
 def _case(draw, tier):
-    ntests = draw(st.integers(1, 4))
+    ntests = draw(st.sampled_from([1, 2, 3, 4]))
     tests = []
     idx = 0
     for _ in range(ntests):
         sites = []
-        for _ in range(draw(st.integers(1, 4))):
+        for _ in range(draw(st.sampled_from([1, 2, 3, 4]))):
             sites.append(draw(_site(idx)))
             idx += 1
         tests.append(sites)
